@@ -31,6 +31,12 @@ func (c *ctx) emit(line, class string, nontriv bool, tags ...string) {
 	c.b.add(pending{line: line, readable: rd, goOut: g, class: class, nontriv: nontriv, tags: tags})
 }
 
+// emitPre queues a case whose Go observable was computed by the caller (batched evaluation, e.g. when
+// wall-clock time must pass between two steps); replay still goes through the stream's eval.
+func (c *ctx) emitPre(line, goOut, readable, class string, nontriv bool, tags ...string) {
+	c.b.add(pending{line: line, readable: readable, goOut: goOut, class: class, nontriv: nontriv, tags: tags})
+}
+
 // emitG is emit for callers that need the Go observable (e.g. to tag by outcome).
 func (c *ctx) emitG(line, class string, nontriv func(goOut string) bool, tags func(goOut string) []string) string {
 	g, rd := c.s.eval(line)
